@@ -108,7 +108,8 @@ SPECS["C01"] = dict(
     level="model_checking",
     engine="E1 enum (+E3 for listeners and upstream reply paths)",
     technique="bounded exhaustive enumeration of malformed inputs (all short strings, all <=2-byte deviations from a seed corpus, all pointer retargets) on the real decoder, "
-              "and of framing lies on every listener seam followed by a valid query",
+              "of framing lies (also a valid query with an undecodable frame right behind it) on every real listener followed by a valid query, and of reply programs "
+              "(valid/repeated/unsolicited/malformed replies, framing lies; one segment or one by one) on the real upstream transports followed by valid exchanges",
     claim="No input in the enumerated space (all strings of length <=2 after 6 header templates, all class-alphabet strings up to the bound at every name "
           "position, every prefix / single-byte substitution / deletion / duplication / pointer retarget of 27 seed messages, pairs of substitutions in the "
           "thorough tier) makes the decoder panic or loop, and every accepted message re-packs and re-decodes.",
@@ -118,6 +119,11 @@ SPECS["C01"] = dict(
     parts=[dict(name="decoder", pkg="internal/dnsmsg", run="TestVerifC01Decoder", engines=("choice", "report", "refdns", "env", "sched"),
                 files=dict(DNSMSG_COMMON, **{"harness/dnsmsg/zz_verif_c01_test.go": "internal/dnsmsg/zz_verif_c01_test.go"}),
                 params={"quick": {"CLASSLEN": 5, "PAIRS": 0}, "thorough": {"CLASSLEN": 6, "PAIRS": 1}}),
+           dict(name="upstream-replies", pkg="internal/upstream/transport", run="TestVerifC01Upstream", go="go1.26", env=E3ENV, gomaxprocs=1, engines=E3ENGINES,
+                files=dict(TRANSPORT_COMMON, **{"harness/transport/zz_verif_c14_test.go": "internal/upstream/transport/zz_verif_c14_test.go",
+                                                "harness/transport/zz_verif_c01up_test.go": "internal/upstream/transport/zz_verif_c01up_test.go"}),
+                params={"quick": {"PROGLEN": 2}, "thorough": {"PROGLEN": 3}},
+                budget={"quick": 60, "thorough": 900}),
            router_part("listeners", "TestVerifC01Listeners", ["zz_verif_c01_test.go", "zz_verif_c03_test.go"], shards=1, gomaxprocs=8, budget={"quick": 300, "thorough": 300})],
 )
 
@@ -405,7 +411,7 @@ SPECS["C04"] = dict(
     rule="see evidence rule written by the harness",
     assumptions=["upstream answers are a keyed function of the question plus a serial, so any mix-up is observable"],
     parts=[router_part("mixups", "TestVerifC04", ["zz_verif_c04_test.go", "zz_verif_c03_test.go", "zz_verif_c19_test.go", "zz_verif_c07_test.go", "zz_verif_c08_test.go"],
-                       params={"quick": {"DEPTH": 5, "SHARDDEPTH": 4}, "thorough": {"DEPTH": 8, "SHARDDEPTH": 4}})],
+                       params={"quick": {"DEPTH": 5, "SHARDDEPTH": 4, "LONGSTEPS": 1}, "thorough": {"DEPTH": 7, "SHARDDEPTH": 4, "LONGSTEPS": 2}})],
 )
 
 
